@@ -65,7 +65,11 @@ def c07_faults(rnd, method):
     """C07: registrations that report failure."""
     c = rnd.random()
     if c < 0.3:
-        return ["eventfd2 %d EMFILE 1" % rnd.choice([1, 1, 2]), "pipe 1 EMFILE 1"]
+        # event registration fails when the raw-event transport is in use
+        # (poll/ppoll); with epoll the kick descriptor creation would be fatal
+        if method in ("poll", "ppoll"):
+            return ["eventfd2 %d EMFILE 1" % rnd.choice([1, 1, 2])]
+        return []
     if c < 0.5:
         return ["epoll_ctl %d EBADF 0" % rnd.randint(1, 6)]
     return []
@@ -103,15 +107,24 @@ def run(pid, tier, seed, replay=None):
             for r in v["viols"]:
                 if r.split(":")[0] in mine:
                     bad.setdefault(v["id"], []).append(r)
-        # confirm each violating script by re-running it once
+        # confirm violating scripts (at most 12, at least one per rule) by
+        # re-running them once, in one batch
+        pick, rules_seen = [], set()
         for sid, rules in bad.items():
-            tf2 = corerun.run_scripts(exe, [idx[sid]], sc, tag="confirm-" + sid.replace("/", "_"))
+            if len(pick) < 12 or any(r not in rules_seen for r in rules):
+                pick.append(sid)
+                rules_seen.update(rules)
+            if len(pick) >= 40:
+                break
+        if pick:
+            tf2 = corerun.run_scripts(exe, [idx[s] for s in pick], sc, tag="confirm")
             v2, _ = vlib.validate_traces(tf2, sc)
-            again = set(v2[0]["viols"]) if v2 else set()
-            for r in rules:
-                if r in again:
-                    p = vlib.save_replay_text(pid, idx[sid])
-                    rep.violation(r, p, "script %s" % sid)
+            again = {v["id"]: set(v["viols"]) for v in v2}
+            for sid in pick:
+                for r in bad[sid]:
+                    if r in again.get(sid, ()):
+                        p = vlib.save_replay_text(pid, idx[sid])
+                        rep.violation(r, p, "script %s" % sid)
         rep.add(evaluations=len(scripts), distinct_nontrivial=len(nontrivial),
                 traces_validated_against_impl=len(verdicts), trace_events=nev,
                 states=mc["states"] + nev + len(tfs), transitions=mc["transitions"] + nev,
@@ -125,7 +138,7 @@ def run(pid, tier, seed, replay=None):
         if verdicts:
             rep.sample({"verdict": {k: verdicts[0][k] for k in ("id", "why", "viols")}})
         vac = [r for r in RULES.get(pid, []) if seen_rules[r] == 0]
-        if vac and not replay:
+        if vac and not replay and not rep.viol:
             raise vlib.MachineryError("vacuous run: rules never exercised: %s" % vac)
     rep.assumptions += [
         "virtual kernel (harness/simk.c) over real descriptors: readiness is measured with poll(2), time is virtual",
